@@ -83,7 +83,19 @@ fn lines() {
                 }
             }
             "stall" => engine::run_stall(&toks[1..]),
-            "seg" => segfile::run_seg(&toks[1..]),
+            "seg" => {
+                // a process that opens segment after segment must not run out of descriptors: whatever an open
+                // that fails acquired on the way is given back (the limit makes a leak show within one chunk)
+                static LOW: std::sync::Once = std::sync::Once::new();
+                LOW.call_once(|| unsafe {
+                    let mut rl = libc::rlimit { rlim_cur: 0, rlim_max: 0 };
+                    if libc::getrlimit(libc::RLIMIT_NOFILE, &mut rl) == 0 {
+                        rl.rlim_cur = 96.min(rl.rlim_max);
+                        libc::setrlimit(libc::RLIMIT_NOFILE, &rl);
+                    }
+                });
+                segfile::run_seg(&toks[1..])
+            }
             "sgo" => segfile::run_sgo(&toks[1..]),
             "pubs" => segfile::run_pubs(&toks[1..]),
             "pubr" => segfile::run_pubr(&toks[1..]),
